@@ -45,9 +45,10 @@ type tcase interface {
 }
 
 type failure struct {
-	c   tcase
-	v   verdict
-	seq int64
+	c    tcase
+	v    verdict
+	sig  string
+	size int
 }
 
 func main() {
@@ -138,19 +139,23 @@ func main() {
 					if v.Kind != "" {
 						atomic.AddInt64(&rawFails, 1)
 						bk := v.Kind + " :: " + v.Detail
-						f := failure{c, v, n}
-						bmu.Lock()
-						b := append(buckets[bk], f)
-						sort.SliceStable(b, func(i, j int) bool {
-							if b[i].c.size() != b[j].c.size() {
-								return b[i].c.size() < b[j].c.size()
+						f := failure{c: c, v: v, sig: sg, size: c.size()}
+						less := func(a, b failure) bool {
+							if a.size != b.size {
+								return a.size < b.size
 							}
-							return b[i].c.sig() < b[j].c.sig()
-						})
-						if len(b) > perBucket {
-							b = b[:perBucket]
+							return a.sig < b.sig
 						}
-						buckets[bk] = b
+						bmu.Lock()
+						b := buckets[bk]
+						if len(b) < perBucket || less(f, b[len(b)-1]) {
+							b = append(b, f)
+							sort.SliceStable(b, func(i, j int) bool { return less(b[i], b[j]) })
+							if len(b) > perBucket {
+								b = b[:perBucket]
+							}
+							buckets[bk] = b
+						}
 						bmu.Unlock()
 					}
 				}
@@ -177,14 +182,14 @@ func main() {
 	if only == "" || only == "parquet" {
 		enumPQ(pp, emit)
 	}
-	if only != "" {
-		atomic.StoreInt32(&incomplete, 1)
-	}
 	if len(batch) > 0 {
 		ch <- batch
 	}
 	close(ch)
 	wg.Wait()
+	if only != "" {
+		atomic.StoreInt32(&incomplete, 1)
+	}
 
 	// ---- minimise (greedy over shrinks, same oracle kind), in parallel, memoised -----------------
 	var todo []failure
